@@ -1260,7 +1260,8 @@ class C05(Prop):
         uid = 0
         for outer in sorted(NEST):
             for inner in sorted(set([outer, "sort"])):
-                for how, ib, iops in (("error", 'error ("boom1\\n");', "(raise boom1)"), ("throw", 'throw ("t1");', "(throw t1)")):
+                for how, ib, iops in (("error", 'error ("boom1\\n");', "(raise boom1)"), ("throw", 'throw ("t1");', "(throw t1)"),
+                                      ("ok", "", "")):
                     uid += 1
                     st, op, fns, gl, pr = nested_efun(uid, outer, inner, ib, iops)
                     B.append(fixed_case("b-nested-%s-in-%s-%s" % (inner, outer, how), " ".join(st), op, fns=gl + fns, prep=" ".join(pr)))
